@@ -36,7 +36,7 @@ def one(sid):
 
 
 def main():
-    ids = sys.argv[1:] or sorted(d for d in os.listdir(ROOT) if os.path.isdir(os.path.join(ROOT, d)))
+    ids = sys.argv[1:] or sorted(d for d in os.listdir(ROOT) if os.path.isdir(os.path.join(ROOT, d)) and d != "retired")
     results = {}
     with concurrent.futures.ThreadPoolExecutor(max_workers=int(os.environ.get("PAR", "3"))) as ex:
         for sid, out in ex.map(one, ids):
